@@ -201,6 +201,7 @@ type CItem struct {
 	Name  string `json:"name,omitempty"`
 	Value string `json:"value,omitempty"`
 	VSep  string `json:"vsep,omitempty"` // blanks between the colon and the value
+	Pre   string `json:"pre,omitempty"`  // tag only: text (ending in a blank) that stands before the name in the same piece
 }
 
 type Comment struct {
@@ -217,7 +218,7 @@ func (c *Comment) Body() string {
 			sb.WriteString(", ")
 		}
 		if it.Tag {
-			sb.WriteString(it.Name + ":")
+			sb.WriteString(it.Pre + it.Name + ":")
 			if it.Value != "" {
 				sb.WriteString(it.VSep)
 			}
@@ -515,6 +516,7 @@ func renderComment(b *lineBuf, c *Comment, kind string) {
 			b.w(", ")
 		}
 		if it.Tag {
+			b.w(it.Pre)
 			b.span("tagname", it.Name)
 			b.w(":")
 			if it.Value != "" {
